@@ -20,13 +20,16 @@ WITNESSES = [
     ("load-snap-restart", [("w:1,L,w:2,s,w:1,x", False), ("w:2,s,c", False), ("c", True)]),
     ("load-kill", [("w:12,s,L,x", False), ("w:1,c", False), ("c", False)]),
     ("load-load", [("L,w:1,L,w:2,s,c", False), ("LB,w:1,c", True)]),
+    ("load-after-fast-restart", [("w:1,s,c", False), ("L,w:2,s,c", False), ("c", True)]),
+    ("load-after-fast-restart-2", [("w:12,s,w:1,s,c", False), ("w:2,L,w:1,s,w:2,c", False), ("w:1,c", True)]),
+    ("load-after-restore-restart", [("w:1,s,c", False), ("L,w:2,s,c", True), ("c", True)]),
 ]
 
 def run(ctx):
     vlib.tlc_mc(ctx, "Snapshotting", "Snapshotting_mc.cfg", coverage=False, heap="16g", timeout=3000, workers=ctx.pick(8, "auto"))
     vlib.tlc_neg(ctx, "Snapshotting", "Snapshotting_neg_FullAfterLoad.cfg", expect="Rebuild", heap="8g")
     loads = lambda h: any(x["a"] == "L" for x in h) and not any(x["a"] == "open" and x.get("recover") for x in h)
-    sample, gst = snapcases.generated(ctx, vlib, ctx.pick("SnapshottingGen.cfg", "SnapshottingGen4.cfg"), ctx.pick(30, 300), loads, final_restore=False)
+    sample, gst = snapcases.generated(ctx, vlib, ctx.pick("SnapshottingGen.cfg", "SnapshottingGen4.cfg"), ctx.pick(30, 300), loads, final_restore=True)
     cases = sample + [{"id": "wit-" + n, "phases": [{"script": s, "crash": "", "recover": False, "rmfp": f} for s, f in ph]} for n, ph in WITNESSES]
     st, rows = snapcases.run_cases(ctx, vlib, cases, "loads on a single node", "load")
     ctx.cov["generated"] = gst
